@@ -21,12 +21,21 @@ def densify(r):
     return np.asarray(r)
 
 
-def same_values(a, b):
+def same_values(a, b, signed_zero=False):
     a, b = np.asarray(a), np.asarray(b)
     if a.shape != b.shape:
         return False
     if a.dtype.kind in "fc" or b.dtype.kind in "fc":
-        return bool(np.array_equal(a, b, equal_nan=True))
+        if not np.array_equal(a, b, equal_nan=True):
+            return False
+        if signed_zero and a.dtype.kind == b.dtype.kind:
+            # -0.0 and +0.0 compare equal but are different elements (1/x, copysign, arctan2, signbit tell them apart)
+            parts = [(a.real, b.real), (a.imag, b.imag)] if a.dtype.kind == "c" else [(a, b)]
+            for u, v in parts:
+                z = (u == 0) & (v == 0)
+                if z.any() and not np.array_equal(np.signbit(u[z]), np.signbit(v[z])):
+                    return False
+        return True
     return bool(np.array_equal(a, b))
 
 
